@@ -54,6 +54,7 @@ def showObs : Obs → String
   | .cas false => "c-"
   | .removed ks => "x" ++ showKeys ks
   | .nosnap => "nosnap"
+  | .panic => "panic"
 
 def showOut (obs : List Obs) (s : St) : String :=
   (if obs.isEmpty then "-" else ";".intercalate (obs.map showObs)) ++ "|" ++ showMap "=" s.data ++ "|" ++
@@ -71,7 +72,7 @@ def modelLine (line : String) : String :=
     -- above 10 lease entries the real sampling order is unknown: mark the output so that it can never
     -- be mistaken for a prediction
     let mark := if tags.contains "sample-gt10" then "nondet:" else ""
-    mark ++ showOut obs s ++ "\t" ++ (if tags.isEmpty then "-" else ",".intercalate tags)
+    (if obs.contains .panic then "panic" else mark ++ showOut obs s) ++ "\t" ++ (if tags.isEmpty then "-" else ",".intercalate tags)
 
 def parseObs (s : String) : Option Obs :=
   if s == "." then some .none
@@ -111,7 +112,11 @@ def monitorC23 (c : Case) (out : String) : String :=
         | some (kind, none) => s!"bad {kind}"
         | some (_, some ctx) => s!"bad ttl-state-wrong-after-{ctx}-{engName c.eng}"
     | _, _ => "bad impl-output-unparseable"
-  | _ => if out == "panic" then "bad panic" else "bad impl-output-unparseable"
+  | _ =>
+    if out == "panic" then
+      if c.ops.any (fun o => match o with | .put _ _ (some t) => 4611686018427387904 ≤ t | _ => false)
+      then "bad panic-on-huge-ttl" else "bad panic"
+    else "bad impl-output-unparseable"
 
 def monitorLine (prop : String) (line : String) : String :=
   match line.splitOn "\t" with
